@@ -122,6 +122,7 @@ func main() {
 	replay := flag.String("replay", "", "replay file")
 	workers := flag.Int("workers", 0, "worker processes (default 16)")
 	keep := flag.Bool("keep", false, "keep the work directory")
+	withRace := flag.Bool("with-race", false, "with -build-only: also build the -race worker (pre-warms the build cache)")
 	buildOnly := flag.Bool("build-only", false, "instrument and build the worker, then exit (used by setup)")
 	selftest := flag.Bool("conformance", false, "run the repository's own test suite on the instrumented tree (pass-through mode)")
 	budgetFlag := flag.Duration("budget", 0, "override the time budget")
@@ -178,6 +179,9 @@ func main() {
 	worker := filepath.Join(work, "vworker")
 	buildWorker(overlay, worker, cleanup)
 	if *buildOnly {
+		if *withRace {
+			buildWorkerRace(overlay, filepath.Join(work, "vworker-race"), cleanup)
+		}
 		fmt.Println("build ok")
 		return
 	}
@@ -224,7 +228,15 @@ func main() {
 	deadline := time.Now().Add(bud)
 	hard := bud*2 + 60*time.Second
 
-	results := runUnits(worker, id, *tier, seed, m.Units, *workers, deadline, hard, work)
+	raceWorker := ""
+	for _, un := range m.Units {
+		if strings.HasPrefix(un, "racepass/") {
+			raceWorker = filepath.Join(work, "vworker-race")
+			buildWorkerRace(overlay, raceWorker, cleanup)
+			break
+		}
+	}
+	results := runUnits(worker, raceWorker, id, *tier, seed, m.Units, *workers, deadline, hard, work)
 
 	// merge
 	var states, transitions, traces, evals, distinct int64
@@ -451,6 +463,18 @@ func buildOverlay(work string) string {
 	return p
 }
 
+func buildWorkerRace(overlay, out string, cleanup func()) {
+	cmd := exec.Command("go", "build", "-race", "-overlay", overlay, "-tags", "verif", "-o", out, "./"+vpkgRoot+"/vworker")
+	cmd.Dir = repo
+	cmd.Env = goEnv()
+	b, err := cmd.CombinedOutput()
+	if err != nil {
+		fmt.Printf("%s\n", b)
+		cleanup()
+		infra("cannot build the -race worker: %v", err)
+	}
+}
+
 func buildWorker(overlay, out string, cleanup func()) {
 	cmd := exec.Command("go", "build", "-overlay", overlay, "-tags", "verif", "-o", out, "./"+vpkgRoot+"/vworker")
 	cmd.Dir = repo
@@ -468,13 +492,20 @@ type job struct {
 	tries int
 }
 
-func runUnits(worker, id, tier string, seed int64, units []string, nworkers int, deadline time.Time, hard time.Duration, work string) []result {
+func runUnits(worker, raceWorker, id, tier string, seed int64, units []string, nworkers int, deadline time.Time, hard time.Duration, work string) []result {
 	if nworkers > len(units) {
 		nworkers = len(units)
 	}
 	jobs := make(chan job, len(units)*2+1)
+	raceJobs := make(chan job, len(units)*2+1)
+	nRace := 0
 	for i := range units {
-		jobs <- job{idx: i}
+		if strings.HasPrefix(units[i], "racepass/") {
+			raceJobs <- job{idx: i}
+			nRace++
+		} else {
+			jobs <- job{idx: i}
+		}
 	}
 	var mu sync.Mutex
 	results := make([]result, 0, len(units))
@@ -490,14 +521,25 @@ func runUnits(worker, id, tier string, seed int64, units []string, nworkers int,
 		mu.Unlock()
 	}
 	for w := 0; w < nworkers; w++ {
+		bin, jobs := worker, jobs
+		if nRace > 0 && w%4 == 3 {
+			// a quarter of the worker slots serve the free-running -race pass
+			bin, jobs = raceWorker, raceJobs
+		}
+		if nRace > 0 && nworkers < 4 && w == 0 {
+			bin, jobs = raceWorker, raceJobs
+		}
 		go func() {
 			var cmd *exec.Cmd
 			var stdin io.WriteCloser
 			var rd *bufio.Reader
 			var stderr *bytes.Buffer
 			start := func() error {
-				cmd = exec.Command(worker, "-check", id, "-tier", tier, "-serve", "-deadline", strconv.FormatInt(deadline.Unix(), 10), "-seed", strconv.FormatInt(seed, 10))
+				cmd = exec.Command(bin, "-check", id, "-tier", tier, "-serve", "-deadline", strconv.FormatInt(deadline.Unix(), 10), "-seed", strconv.FormatInt(seed, 10))
 				cmd.Env = append(os.Environ(), "VERIF_SCRATCH="+work, "GOMAXPROCS=2")
+				if bin == raceWorker {
+					cmd.Env = append(os.Environ(), "VERIF_SCRATCH="+work, "GOMAXPROCS=4", "GORACE=halt_on_error=1 exitcode=66")
+				}
 				cmd.SysProcAttr = &syscall.SysProcAttr{Setpgid: true}
 				stderr = &bytes.Buffer{}
 				cmd.Stderr = stderr
@@ -572,6 +614,9 @@ func runUnits(worker, id, tier string, seed int64, units []string, nworkers int,
 					// A worker that dies or hangs twice on the same unit: the code under test killed
 					// or wedged the process.
 					sig := "worker-" + strings.Fields(what)[0] + "/" + units[j.idx]
+					if strings.Contains(tail, "DATA RACE") {
+						sig = "data-race/" + units[j.idx]
+					}
 					finish(result{Unit: units[j.idx], Exhaustive: false, Violations: []violation{{
 						Signature: sig, Unit: units[j.idx],
 						Detail: "worker process " + what + " while running unit " + units[j.idx] + "; stderr tail:\n" + tail,
